@@ -12,8 +12,9 @@ from pathlib import Path
 
 VERIF = Path(__file__).resolve().parents[1]
 REPO = Path(os.environ.get("OPENPINCH_REPO", "/repo"))
-EVID = VERIF / "evidence"
-REPLAYS = VERIF / "replays"
+_OUT = Path(os.environ["VERIF_OUT"]) if os.environ.get("VERIF_OUT") else VERIF      # seed trials write elsewhere
+EVID = _OUT / "evidence"
+REPLAYS = _OUT / "replays"
 GUARD = "OPENPINCH_VERIF"
 
 
